@@ -14,6 +14,15 @@ import (
 
 func init() { props["C14"] = runC14 }
 
+// supplied values for typed reusable-workflow inputs with the type the value has
+var c14Values = []struct{ text, ty string }{
+	{"1", "number"}, {"1.5e3", "number"}, {"abc", "string"}, {"true", "bool"}, {"null", "null"}, {"'1'", "number"},
+	{"${{ 1 }}", "number"}, {"${{ 'str' }}", "string"}, {"${{ true }}", "bool"}, {"${{ github.sha }}", "string"},
+	{"${{ fromJSON('1') }}", "any"}, {"' ${{ 0x10 }} '", "number"},
+	{"v${{ 42 }}", "string"}, {"${{ 1 }}${{ 2 }}", "string"}, {"enabled=${{ true }}", "string"}, {"${{ 7 }} items", "string"},
+	{"${{ fromJSON('1') }}x", "string"},
+}
+
 var (
 	reInputUndef   = regexp.MustCompile(`^input "([^"]+)" is not defined in (?:action|"[^"]*" reusable workflow)`)
 	reInputMissing = regexp.MustCompile(`^missing input "([^"]+)" which is required by action`)
@@ -305,14 +314,20 @@ func runC14(c *ctx, r *Report) error {
 				val := "x"
 				for _, d := range ins {
 					if strings.EqualFold(d.name, k) {
+						// the value's type: a literal by its YAML spelling, a value that IS one placeholder by the
+						// placeholder's type, anything else (text around a placeholder, several placeholders) a string
+						v := c14Values[rng.Intn(len(c14Values))]
+						val = v.text
 						switch d.typ {
-						case "number":
-							val = []string{"1", "abc", "${{ 1 }}", "${{ 'str' }}"}[rng.Intn(4)]
-							if val == "abc" || val == "${{ 'str' }}" {
-								typeErrs++ // number ← string is not assignable
+						case "number": // number ← number, any
+							if v.ty != "number" && v.ty != "any" {
+								typeErrs++
+							}
+						case "string": // string ← string, number, any
+							if v.ty == "bool" || v.ty == "null" {
+								typeErrs++
 							}
 						case "boolean":
-							val = []string{"true", "yes-no", "${{ true }}", "${{ 1 }}"}[rng.Intn(4)]
 							// bool accepts every type (everything is coerced to bool): never a mismatch
 						}
 					}
